@@ -126,7 +126,12 @@ def import_fresh_bisturi(tree, optimize=0):
         sys.meta_path.insert(0, finder)
     try:
         import bisturi  # noqa
-        import bisturi.packet, bisturi.field, bisturi.structural_fields, bisturi.descriptor, bisturi.fragments  # noqa
+        import bisturi.packet, bisturi.field  # noqa
+        for extra in ("bisturi.structural_fields", "bisturi.descriptor", "bisturi.fragments"):
+            try:
+                importlib.import_module(extra)
+            except ImportError:
+                pass                     # a tree organised differently; the engines import what they need by name
     finally:
         if finder is not None:
             sys.meta_path.remove(finder)
